@@ -591,3 +591,30 @@ def eam_model(draw, kind="eam", n_min=1, n_max=4, depth=1, pycallables=False):
     m["species"] = list(draw(st.permutations(sp))) if sp else []
     m["grid"] = draw(eam_grid())
     return m
+
+
+PAIR_TARGETS = ["LAMMPS", "DLPOLY", "DL_POLY", "GULP", "excel"]
+EAM_TARGETS = {"setfl": "eam", "lammps_eam_alloy": "eam", "DL_POLY_EAM": "eam", "excel_eam": "eam",
+               "setfl_fs": "fs", "DL_POLY_EAM_fs": "fs", "excel_eam_fs": "fs", "eam_adp": "adp"}
+
+
+@st.composite
+def any_model(draw, targets=None, n_min=1, n_max=3, depth=1, tables=True):
+    """a whole potable model for any tabulation target: {"target", "kind", ...} in the shape
+    vlib.anymodel.sections_of() understands (pair models carry cutoff/nr, EAM models a grid)"""
+    target = draw(st.sampled_from(targets or (PAIR_TARGETS + sorted(EAM_TARGETS))))
+    if target in EAM_TARGETS:
+        m = draw(eam_model(EAM_TARGETS[target], n_min, n_max, depth=depth))
+        if tables and draw(st.integers(0, 2)) == 0:
+            t = draw(table_form("tab1", 8, x0=0.0))
+            m["env"]["table"] = [t]
+            m["pair"].append([m["elements"][0], "Tq", {"ranges": [{"m": None, "s": None, "body": {"k": "table", "name": "tab1"}}]}])
+    else:
+        m = draw(pair_model(3, depth, max_tables=1 if tables else 0, min_pots=1))
+        cutoff, nr = draw(grid_rc(16))
+        if target in ("DLPOLY", "DL_POLY"):
+            nr = 4 * draw(st.integers(2, 5))
+        m["grid"] = {"cutoff": cutoff, "nr": nr}
+        m["kind"] = "pair"
+    m["target"] = target
+    return m
